@@ -275,7 +275,13 @@ def judge(rec, opts):
         if missed:
             # the listed known finding: the catalog the translate tag and the translation filters read from the variable
             # `translations` (nothing else is excused: any other name in `missed` keeps the ordinary signature)
-            site = "translations-catalog" if missed == ["translations"] and uses_translation(templates) else where
+            site = where
+            if uses_translation(templates):
+                msgvars = {m for src in templates.values() for m in re.findall(r"(?<!%)%\((\w+)\)s", src)}
+                if missed == ["translations"]:
+                    site = "translations-catalog"
+                elif set(missed) <= msgvars | {"translations"}:
+                    site = "message-variables"      # the second listed finding: `%(name)s` in a message reads `name`
             out.append((f"variable-not-reported:{site}", {"templates": templates, "looked_up": missed, "reported": sorted(known_vars), "mode": mode}))
         notglobal = sorted(n for n in looked if n in known_vars and n not in a.globals and n not in a.locals)
         if notglobal:
